@@ -123,8 +123,9 @@ structure MState where
   modifying : List (String × Node)
 deriving DecidableEq, Repr, Inhabited
 
-/-- Body of `for prop in spec.priorities:` for a modifying specifier. -/
-def stepMod (s : Spec) (st : MState) (pk : String × Nat) : Except Err MState :=
+/-- Body of `for prop in spec.priorities:` for a modifying specifier, after the check of the final
+properties. -/
+def stepModCore (s : Spec) (st : MState) (pk : String × Nat) : Except Err MState :=
   match get st.props pk.1 with
   | some (_, cur) =>
     if pk.2 < cur then .ok ⟨put st.props pk.1 (.user s.name, pk.2), st.modifying⟩
@@ -135,19 +136,25 @@ def stepMod (s : Spec) (st : MState) (pk : String × Nat) : Except Err MState :=
     else .ok st
   | none => .ok ⟨put st.props pk.1 (.user s.name, pk.2), st.modifying⟩
 
-def stepsMod (s : Spec) : List (String × Nat) → MState → Except Err MState
+/-- Body of `for prop in spec.priorities:` for a modifying specifier: since commit 5766576b the
+`prop in finals` check is made here too ("Final properties cannot be specified by modifying
+specifiers either"). -/
+def stepMod (finals : List String) (s : Spec) (st : MState) (pk : String × Nat) : Except Err MState :=
+  if pk.1 ∈ finals then .error .finalProp else stepModCore s st pk
+
+def stepsMod (finals : List String) (s : Spec) : List (String × Nat) → MState → Except Err MState
   | [], st => .ok st
   | pk :: rest, st =>
-    match stepMod s st pk with
+    match stepMod finals s st pk with
     | .error e => .error e
-    | .ok st' => stepsMod s rest st'
+    | .ok st' => stepsMod finals s rest st'
 
-def modPass : List Spec → MState → Except Err MState
+def modPass (finals : List String) : List Spec → MState → Except Err MState
   | [], st => .ok st
   | s :: rest, st =>
-    match stepsMod s s.prios st with
+    match stepsMod finals s s.prios st with
     | .error e => .error e
-    | .ok st' => modPass rest st'
+    | .ok st' => modPass finals rest st'
 
 /-! ## Defaults -/
 
@@ -250,7 +257,7 @@ def assignPhase (C : ClassInfo) (S : List Spec) : Except Err Pre :=
     match normalPass C.finals (S.filter (fun s => !s.modifying)) ⟨[], []⟩ with
     | .error e => .error e
     | .ok ns =>
-      match modPass (S.filter (fun s => s.modifying)) ⟨ns.props, []⟩ with
+      match modPass C.finals (S.filter (fun s => s.modifying)) ⟨ns.props, []⟩ with
       | .error e => .error e
       | .ok ms =>
         let da := addDefaults ms.props C.defaults (ms.props.map (fun e => (e.1, e.2.1))) []
